@@ -7,6 +7,7 @@ import Halo.Props.C02
 import Halo.Props.C03W
 import Halo.Props.C13W
 import Halo.Props.C16W
+import Halo.Props.C16R
 import Halo.Props.C20
 import Halo.Props.C03G
 import Halo.Props.C20W
@@ -123,7 +124,7 @@ theorem registry_eq : w0.registry = [(key11, rec11), (key13, rec13)] := rfl
 
 theorem rawOK_w0 : RawOK w0 where
   inj := by
-    intro a b h
+    intro a b _ _ h
     cases a <;> cases b <;> simp [w0, rawId0] at h ⊢ <;> omega
   short := by
     intro a
@@ -152,6 +153,93 @@ theorem regOK_w0 : RegOK w0 where
     rcases he with rfl | rfl
     · simp [rec11] at hd; subst hd; rfl
     · simp [rec13] at hd; subst hd; rfl
+  live := by
+    rw [registry_eq]; intro e he
+    simp at he
+    rcases he with rfl | rfl <;> decide
+
+/-! ### 1b. an aliased identifier: why `RawOK` speaks about live assets only
+
+`wA` is `w0` in an environment where the identifier `token 108` — think of the upper-case spelling of the address of
+the cw20 contract `token 8` — canonicalises to the raw identifier of `token 8`.  It is not a contract (`¬ Live`).
+`rawId` is not injective there, so the former `RawOK` (injectivity on all identifiers) fails; the present one holds,
+and so does `RegOK`.  A lookup with the alias returns the record of the live pair, which is not over the queried
+identifiers: the former conclusion of `lookup_sound` needs the queried assets to be live. -/
+
+def rawIdA : Asset → Bytes := fun a => if a = .token 108 then rawId0 (.token 8) else rawId0 a
+
+def wA : World := { w0 with rawId := rawIdA }
+
+theorem alias_not_live : ¬ Live wA (.token 108) := by decide
+
+theorem alias_same_raw : wA.rawId (.token 108) = wA.rawId (.token 8) ∧ Live wA (.token 8) := by decide
+
+/-- the former `RawOK.inj` fails in `wA` … -/
+theorem old_inj_fails_wA : ¬ ∀ a b, wA.rawId a = wA.rawId b → a = b := by
+  intro h
+  exact absurd (h (.token 108) (.token 8) alias_same_raw.1) (by decide)
+
+/-- … the present `RawOK` holds -/
+theorem rawOK_wA : RawOK wA where
+  inj := by
+    intro a b la lb h
+    have ha : a ≠ .token 108 := by rintro rfl; exact alias_not_live la
+    have hb : b ≠ .token 108 := by rintro rfl; exact alias_not_live lb
+    simp only [wA, rawIdA, if_neg ha, if_neg hb] at h
+    exact rawOK_w0.inj a b la lb h
+  short := by
+    intro a
+    by_cases ha : a = .token 108
+    · simp [wA, rawIdA, ha, rawId0]
+    · simp only [wA, rawIdA, if_neg ha]; exact rawOK_w0.short a
+
+theorem registry_eq_A : wA.registry = [(key11, rec11), (key13, rec13)] := rfl
+
+theorem regOK_wA : RegOK wA where
+  sorted := by rw [registry_eq_A]; decide
+  keyed := by
+    rw [registry_eq_A]; intro e he
+    simp at he
+    rcases he with rfl | rfl <;> rfl
+  matched := by
+    rw [registry_eq_A]; intro e he
+    simp at he
+    rcases he with rfl | rfl
+    · exact ⟨pair11, rfl, rfl, rfl, rfl, rfl, rfl, rfl, rfl, rfl⟩
+    · exact ⟨pair13, rfl, rfl, rfl, rfl, rfl, rfl, rfl, rfl, rfl⟩
+  distinctPairs := by rw [registry_eq_A]; decide
+  distinctAssets := by
+    rw [registry_eq_A]; intro e he
+    simp at he
+    rcases he with rfl | rfl <;> decide
+  denomsKnown := regOK_w0.denomsKnown
+  live := regOK_w0.live
+
+/-- the alias is looked up as the live token (instance of `C16W.lookup_by_raw`) … -/
+theorem alias_lookup : facLookup wA (.native 0) (.token 108) = some rec11 := by
+  rw [Halo.Props.C16W.lookup_by_raw (w := wA) (a' := .native 0) (b' := .token 8) rfl alias_same_raw.1]
+  rfl
+
+/-- … so the record returned is NOT over the queried identifiers (the former conclusion of `lookup_sound` fails for a
+non-live query) — it is over their raw identifiers, and over live assets (instances of `C16W.lookup_sound`,
+`C16W.lookup_live`) -/
+theorem alias_lookup_not_old :
+    ¬ ((rec11.a0 = .native 0 ∧ rec11.a1 = .token 108) ∨ (rec11.a0 = .token 108 ∧ rec11.a1 = .native 0)) := by decide
+
+theorem alias_lookup_sound :
+    (wA.rawId rec11.a0 = wA.rawId (.native 0) ∧ wA.rawId rec11.a1 = wA.rawId (.token 108)) ∧
+    Live wA rec11.a0 ∧ Live wA rec11.a1 := by
+  obtain ⟨hraw, _⟩ := Halo.Props.C16W.lookup_sound regOK_wA rawOK_wA alias_lookup
+  obtain ⟨l0, l1, _⟩ := Halo.Props.C16W.lookup_live regOK_wA alias_lookup
+  refine ⟨?_, l0, l1⟩
+  rcases hraw with h | ⟨h, _⟩
+  · exact h
+  · exact absurd h (by decide)
+
+/-- with live query assets the lookup theorem gives the assets themselves -/
+theorem live_lookup_sound {R : Record} (h : facLookup wA (.token 8) (.native 0) = some R) :
+    (R.a0 = .token 8 ∧ R.a1 = .native 0) ∨ (R.a0 = .native 0 ∧ R.a1 = .token 8) :=
+  (Halo.Props.C16W.lookup_sound regOK_wA rawOK_wA h).2 (by decide) (by decide)
 
 /-! ### cw20 conservation for a concrete token
 
@@ -292,6 +380,21 @@ theorem create_ok : ∃ w' out,
   refine ⟨w', out, h, Halo.Props.C16W.regOK_step regOK_w0 rawOK_w0 ?_ ?_ h⟩
   · intro s p f m h; cases h
   · intro s f a0 a1 req c ld np nl h; exact (freshOK_create s f a0 a1 req c ld np nl h).1
+
+/-- the LP token address 16 carries a raw identifier no live asset carries: `RawFreshOK` holds for that creation, so it
+preserves `RawOK` as well (instance of `C16R.rawOK_step`) -/
+theorem rawFreshOK_create :
+    Halo.Reach.RawFreshOK w0 (.factory 0 [] (.createPair (.token 9) (.native 0) noReq none none 15 16)) := by
+  rw [Halo.Props.C16R.rawFreshOK_createPair]
+  intro a _ hne h
+  cases a with
+  | native d => simp [w0, rawId0] at h
+  | token t => simp [w0, rawId0] at h hne; omega
+
+theorem create_keeps_rawOK {w' : World} {out : Out}
+    (h : exec name0 w0 (.factory 0 [] (.createPair (.token 9) (.native 0) noReq none none 15 16)) = .ok (w', out)) :
+    RawOK w' :=
+  Halo.Props.C16R.rawOK_step rawOK_w0 rawFreshOK_create h
 
 /-- the hypotheses of the genesis theorem `C03G.created_pair_inv` are met by that creation: the owner (account 0) is an
 external actor, the addresses 15 / 16 are fresh and allocated as the environment does, and the creation succeeds — so
